@@ -700,7 +700,11 @@ fn gen_step(cx: &mut Ctx, st: &mut State, d: usize, bytes: &[u8], variant: u8) {
         }
     });
     match r {
-        Err(m) => cx.fail("C11.no_unexpected_panic", format!("generate:{}", TYPE_NAMES[t]), format!("generator panicked: {}", m)),
+        Err(_) => {
+            // a generator panic is C03's subject
+            cx.probe("obj.generate_panic");
+            cx.ev(true, format_args!("generate s{} -> PANIC", d));
+        }
         Ok(Err(e)) => cx.ev(true, format_args!("generate s{} {} v{} -> Err({:?})", d, abr(bytes), variant % 3, e)),
         Ok(Ok(h)) => {
             let before = st.mdl[d].c.clone();
@@ -792,12 +796,10 @@ fn parse_step(cx: &mut Ctx, st: &mut State, d: usize, text: &[u8], via: u8) {
     }
     match r {
         Err(m) => {
+            // A parser that panics produces no object: that is C04's statement
+            // (parsing is total), not C11's; logged, counted, not reported here.
+            let _ = (&m, sigclass);
             cx.probe("obj.parse_panic");
-            cx.fail(
-                "C11.no_unexpected_panic",
-                format!("parse:{}:{}", TYPE_NAMES[t], sigclass),
-                format!("parsing {:?} as {} panicked: {}", String::from_utf8_lossy(text), TYPE_NAMES[t], m),
-            );
             cx.ev(!overlong, format_args!("parse s{} {} -> PANIC", d, abr(text)));
         }
         Ok(Err(e)) => {
@@ -948,26 +950,38 @@ fn ctor_step(cx: &mut Ctx, st: &mut State, d: usize, which: u8, bs: u32, b1: &[u
         (Err(_), false) => {
             cx.probe("obj.ctor_refused");
             if which == 3 {
-                // in-place form: the destination must still be a valid object
                 cx.probe("obj.ctor_inplace_refused");
-                settle(cx, st, d, "init_from_internals_raw(refused)");
             }
-            cx.ev(true, format_args!("ctor s{} {} {} -> refused", d, TYPE_NAMES[t], name));
+            // (the in-place form may have been interrupted half-way: the
+            // property does not demand exception safety; the slot keeps the
+            // object it had before the call, which the call never saw)
+            cx.ev(false, format_args!("ctor s{} {} {} -> refused", d, TYPE_NAMES[t], name));
+            // whatever the outcome of an out-of-contract call, the slot is
+            // re-created: histories stay aligned across build configurations
+            st.slots[d] = H::new_of(t);
+            st.mdl[d] = mdl_of(&st.slots[d]);
         }
         (Ok(h), false) => {
+            // "panic instead of returning a corrupted object": returning a
+            // *valid* object for out-of-contract arguments is not a violation
             cx.probe("obj.ctor_out_of_contract_returned");
-            cx.fail(
-                "C11.ctor_contract",
-                format!("{}:{}:{}", name, TYPE_NAMES[t], class),
-                format!(
-                    "{}::{} returned instead of panicking on out-of-contract arguments ({}); is_valid()={}",
-                    TYPE_NAMES[t],
-                    name,
-                    show_args(which, bs, b1, b2, len1, len2),
-                    guarded(|| h.is_valid()).unwrap_or(false)
-                ),
-            );
-            cx.ev(true, format_args!("ctor s{} {} {} -> returned (out of contract)", d, TYPE_NAMES[t], name));
+            let prob = guarded(|| problem_of(&h)).unwrap_or_else(|m| Some(format!("validity check panicked: {}", m)));
+            if let Some(pb) = prob {
+                cx.fail(
+                    "C11.ctor_contract",
+                    format!("{}:{}:{}", name, TYPE_NAMES[t], class),
+                    format!(
+                        "{}::{} returned a corrupted object instead of panicking on out-of-contract arguments ({}): {}",
+                        TYPE_NAMES[t],
+                        name,
+                        show_args(which, bs, b1, b2, len1, len2),
+                        pb
+                    ),
+                );
+            } else {
+                cx.probe("obj.ctor_out_of_contract_returned_valid");
+            }
+            cx.ev(false, format_args!("ctor s{} {} {} -> returned (out of contract)", d, TYPE_NAMES[t], name));
             // do not keep whatever came back
             st.slots[d] = H::new_of(t);
             st.mdl[d] = mdl_of(&st.slots[d]);
@@ -1097,7 +1111,6 @@ fn norm_in_place_step(cx: &mut Ctx, st: &mut State, d: usize) {
     });
     match r {
         Err(m) => {
-            cx.fail("C11.no_unexpected_panic", format!("normalize_in_place:{}", TYPE_NAMES[t]), format!("normalize_in_place panicked: {}", m));
             cx.fail("C15.no_panic", format!("normalize_in_place:{}", TYPE_NAMES[t]), format!("normalize_in_place panicked: {}", m));
         }
         Ok(h2) => {
@@ -1274,7 +1287,6 @@ fn conv_step(cx: &mut Ctx, st: &mut State, s: usize, d: usize, edge: Edge) {
     let r = guarded(|| apply_edge(edge, &src, &dst_before));
     let out = match r {
         Err(m) => {
-            cx.fail("C11.no_unexpected_panic", sig.clone(), format!("{} panicked on {}: {}", edge.name(), show_content(&sm.c), m));
             cx.fail("C15.no_panic", sig, format!("{} panicked on {}: {}", edge.name(), show_content(&sm.c), m));
             cx.ev(true, format_args!("convert s{}->s{} {} -> PANIC", s, d, edge.name()));
             // the destination may have been partially written by an in-place form
@@ -1480,19 +1492,20 @@ fn corrupt_step(cx: &mut Ctx, t: usize, kind: u8) {
         let _ = h.full_eq(&h);
         v
     });
+    // Objects obtained by violating the contract of an `unsafe` constructor are
+    // outside C11's quantifier (sequences of *safe* operations): what the
+    // observers do on them is recorded, not judged.
     cx.probe("obj.corrupt_observed");
     match r {
-        Ok(false) => cx.ev(false, format_args!("corrupt {} k{} observed", TYPE_NAMES[t], kind % 6)),
-        Ok(true) => cx.fail(
-            "C11.observers_total",
-            format!("corrupt:{}:k{}", TYPE_NAMES[t], kind % 6),
-            format!("is_valid() returned true on a deliberately corrupted {} (kind {})", TYPE_NAMES[t], kind % 6),
-        ),
-        Err(m) => cx.fail(
-            "C11.observers_total",
-            format!("corrupt:{}:k{}", TYPE_NAMES[t], kind % 6),
-            format!("an observer panicked on a corrupted {} (kind {}): {}", TYPE_NAMES[t], kind % 6, m),
-        ),
+        Ok(false) => cx.ev(false, format_args!("corrupt {} k{} observed: is_valid()=false", TYPE_NAMES[t], kind % 6)),
+        Ok(true) => {
+            cx.probe("obj.corrupt_claims_valid");
+            cx.ev(false, format_args!("corrupt {} k{} observed: is_valid()=true", TYPE_NAMES[t], kind % 6))
+        }
+        Err(_) => {
+            cx.probe("obj.corrupt_observer_panicked");
+            cx.ev(false, format_args!("corrupt {} k{}: an observer panicked", TYPE_NAMES[t], kind % 6))
+        }
     }
 }
 
